@@ -62,17 +62,20 @@ type wire struct {
 
 // gsim is one simulated GRANDPA network.
 type gsim struct {
-	k       *kernel.K
-	n       int // voters
-	keys    []*ed25519.Keypair
-	voters  []gp.Voter
-	byz     []bool // byz[i]: voter i is Byzantine (no honest service runs for it)
-	nodes   []*gnode
-	pending []wire
-	ref     *cu.RefTree // the whole block tree (source)
-	blocks  []*cu.RefBlock
-	genesis *types.Header
-	cut     map[[2]int]bool // partitioned links
+	k           *kernel.K
+	n           int // voters
+	keys        []*ed25519.Keypair
+	voters      []gp.Voter
+	byz         []bool // byz[i]: voter i is Byzantine (no honest service runs for it)
+	nodes       []*gnode
+	pending     []wire
+	ref         *cu.RefTree // the whole block tree (source)
+	blocks      []*cu.RefBlock
+	genesis     *types.Header
+	cut         map[[2]int]bool // partitioned links
+	targeted    bool            // targeted split-vote attack run
+	crashes     bool            // crash-restarts of honest voters enabled in this run
+	offEstimate bool            // some honest voter prevoted off the chain of its last round's estimate
 	// honest precommits observed on the wire, for Byzantine replay
 	observed []observedPrecommit
 }
@@ -91,6 +94,31 @@ type gnode struct {
 	mRound uint64
 	mVotes [2]map[ed25519.PublicKeyBytes]gp.Vote // first counted vote per authority, per stage
 	mEqv   [2]map[ed25519.PublicKeyBytes]bool
+	// what this voter has signed, across restarts: (set, round, stage) -> block
+	signed       map[[3]uint64]common.Hash
+	lastEst      *cu.RefBlock // model: estimate of the round the node left last (nil: none)
+	lastEstRound uint64
+	amnesiac     bool // signed two different votes in one round after a restart wiped its memory
+}
+
+// recordOwnVote notes a vote the voter signs. A voter that was restarted in the middle of a round
+// has no memory of the vote it cast (gossamer keeps its own votes in memory only) and may sign a
+// second, different vote for the same round: from then on it is an equivocator, not an honest
+// voter in the sense of C22, and counts against the less-than-a-third budget.
+func (n *gnode) recordOwnVote(stage int, v *gp.Vote) {
+	if n.signed == nil {
+		n.signed = map[[3]uint64]common.Hash{}
+	}
+	key := [3]uint64{n.svc.VerifSetID(), n.svc.VerifRound(), uint64(stage)}
+	if old, ok := n.signed[key]; ok && old != v.Hash {
+		if !n.amnesiac {
+			n.s.k.Probe("restarted-voter-signed-second-vote-in-round")
+			n.s.k.Event("amnesiac", "n%d round=%d stage=%d %s then %s", n.id, key[1], stage, cu.Short(old), cu.Short(v.Hash))
+		}
+		n.amnesiac = true
+		return
+	}
+	n.signed[key] = v.Hash
 }
 
 // netStub implements grandpa.Network for one node.
@@ -182,9 +210,17 @@ func (n *gnode) open(fresh bool) {
 	if err != nil {
 		panic(err)
 	}
+	// what survives a restart: the finalised chain (unfinalised blocks live in memory only)
 	n.has = map[common.Hash]bool{head.Hash(): true}
+	for x := s.ref.Blocks[head.Hash()]; x != nil && x.Number > 0; {
+		x = s.ref.Blocks[x.Parent]
+		if x != nil {
+			n.has[x.Hash] = true
+		}
+	}
 	n.fin = head.Hash()
 	n.phase = 0
+	n.lastEst = nil
 	n.resetModel(0)
 }
 
